@@ -16,10 +16,43 @@ def die(msg):
     sys.stderr.write("gen/constants.py: " + msg + "\n")
     sys.exit(2)
 
+def strip_comments(src):
+    """remove `//…` and `/*…*/` comments, leaving string / char / byte literals alone"""
+    out = []
+    i, n = 0, len(src)
+    while i < n:
+        two = src[i:i + 2]
+        c = src[i]
+        if two == "//":
+            j = src.find("\n", i)
+            i = n if j < 0 else j
+        elif two == "/*":
+            j = src.find("*/", i + 2)
+            i = n if j < 0 else j + 2
+        elif c == '"':
+            j = i + 1
+            while j < n and src[j] != '"':
+                j += 2 if src[j] == "\\" else 1
+            out.append(src[i:j + 1])
+            i = j + 1
+        elif c == "'":
+            m = re.match(r"'(\\.[^']{0,8}|[^\\'])'", src[i:])
+            if m:
+                out.append(m.group(0))
+                i += m.end()
+            else:
+                out.append(c)
+                i += 1
+        else:
+            out.append(c)
+            i += 1
+    return "".join(out)
+
+
 def read(rel):
     p = os.path.join(REPO, rel)
     try:
-        return open(p, encoding="utf-8").read()
+        return strip_comments(open(p, encoding="utf-8").read())
     except OSError as e:
         die(f"cannot read {p}: {e}")
 
